@@ -30,6 +30,9 @@ LEAN_TARGETS = ["RxProofs.C43"]
 DRIVER = "drv_thr2"
 DRIVER_ROOT = "Thr2"
 THEOREMS = [
+    "C43.guarded_terminal_final",
+    "C43.merge_all_grammar",
+    "C43.amb_n_serial",
     "C43.locked_calls_exclusive",
     "C43.locked_paths_serialize",
     "C43.serialized_grammar",
@@ -57,18 +60,25 @@ ASSUMPTIONS = [
 TRUSTED_EXTRA = ["thread-interleaving controller harness/sched/thr2_ctl.py (search tool and trace recorder)",
                  "dynamic lock-table translator (props/C43.py regenerate + sched/thr2_comb.py run_paths/write_lines)"]
 LEVEL_TEXT = ("Lean theorems over an atomic-step interleaving model (any number of threads, any schedule, resumable "
-              "state-dependent handler programs): if every downstream call is made under one lock no two threads are ever "
-              "inside the downstream observer and the subscriber sees next* terminal? (the AutoDetachObserver's "
-              "check-then-set is modelled as separate steps); if in addition every state step is under the lock the run "
-              "equals the sequential run of the handlers in lock-acquisition order; amb is proved without a lock on the "
-              "call; the regenerated lock table of the real combinators is checked by decide. Tied to the code by the "
-              "dynamic lock table, by step-for-step replay of real controlled-thread runs in the model, and by an "
-              "enumerative <=k-preemption search with the property oracle.")
-LEVEL_NOTE = ("Operator-level grammar (before the downstream AutoDetachObserver) is proved only relative to the sequential "
-              "handler (`serialized_grammar`) and only for combinators whose every state step is locked; merge_all/flat_map "
-              "keep `group.add` outside the lock (self-synchronised container) and are covered by `locked_calls_exclusive` "
-              "(exclusion + grammar at the subscriber) only. n-ary rx.amb is covered by composition of the binary theorem "
-              "informally, not as a Lean statement. Window operators: the timer thread is modelled as one more thread.")
+              "state-dependent handler programs mixing locked blocks, atomic steps outside the lock and unlocked calls): if "
+              "every downstream call is made under one lock no two threads are ever inside the downstream observer and the "
+              "subscriber sees next* terminal? (the AutoDetachObserver's check-then-set is modelled as separate steps); if in "
+              "addition every state step is under the lock the run equals the sequential run of the handlers in "
+              "lock-acquisition order; guarded finality (`guarded_terminal_final`) for programs with atomic steps outside "
+              "the lock, instantiated for merge_all/flat_map (`merge_all_grammar`: group.add outside the lock, hot inners with "
+              "terminal replay at subscription: exclusion, grammar at the subscriber, and at operator level on_completed at "
+              "most once, last, only when the outer completed and the group is empty); binary amb and n-ary amb (fold, one "
+              "lock and choice cell per stage) proved without a lock on the call; the regenerated lock table of the real "
+              "combinators is checked by decide. Tied to the code by the dynamic lock table, by step-for-step replay of real "
+              "controlled-thread runs in the model, by the merge_all model run handler-by-handler against the real "
+              "merge_all/flat_map, and by an enumerative <=k-preemption search with the property oracle.")
+LEVEL_NOTE = ("Raw operator-level next*terminal? does not hold for these combinators even sequentially (merge forwards every "
+              "inner error, zip may call on_completed twice; they rely on the downstream AutoDetachObserver), so grammar is "
+              "claimed at the subscriber (all combinators) and, at operator level, as `serialized_grammar` relative to the "
+              "sequential handler (fully locked combinators) and as finality of on_completed for merge_all/flat_map. "
+              "window_with_count has a single source and no timer: the table check is 'only source 0 drives it'. "
+              "buffer_with_time is covered as window_with_time + flat_map (table + search). Window operators: the timer "
+              "thread is modelled as one more thread. Subscription of a combinator is assumed not to race with emissions.")
 TECHNIQUE = "Lean 4 invariants over an atomic-step interleaving model; dynamic lock-table translator; controlled real threads"
 
 PROCS = None
@@ -76,7 +86,8 @@ GEN = fw.LEAN / "RxGen" / "Locks.lean"
 
 COMB_LEAN = {"merge": "merge", "merge_all": "mergeAll", "merge_maxc": "mergeMaxc", "flat_map": "flatMap", "zip": "zip",
              "combine_latest": "combineLatest", "with_latest_from": "withLatestFrom", "amb": "amb",
-             "window_time": "windowTime", "window_toc": "windowToc"}
+             "window_time": "windowTime", "window_toc": "windowToc", "window_count": "windowCount",
+             "buffer_time": "bufferTime"}
 
 
 # =============================================================================== translator
@@ -94,6 +105,8 @@ def _alphabet(op):
     if op in C.HIGHER:
         return [(0, ["I", 0]), (0, ["I", 1]), (0, ["J"]), (0, ["E", "x"]), (0, ["C"]),
                 (1, ["N", 1]), (1, ["E", "y"]), (1, ["C"]), (2, ["N", 2]), (2, ["E", "z"]), (2, ["C"])]
+    if op in C.NO_TIMER:
+        return [(0, ["N", 1]), (0, ["E", "x"]), (0, ["C"])]
     if op in C.WINDOW:
         return [(0, ["N", 1]), (0, ["E", "x"]), (0, ["C"]), (1, ["T"])]
     return [(k, it) for k in (0, 1) for it in (["N", k + 1], ["E", "x"], ["C"])]
@@ -191,7 +204,7 @@ def render(rows, nseq, tag):
         op, src, kind = key
         for cls, (sig, ent) in enumerate(sorted(rows[key], key=lambda kv: (kv[0], str(kv[1])))):
             calls, writes, tsafe, guard = ent
-            if kind != "S" and op != "amb" and any(len(c[1]) == 0 for c in calls + writes):
+            if kind != "S" and op not in ("amb", "window_count") and any(len(c[1]) == 0 for c in calls + writes):
                 n_unlocked += 1
             cs = _lean_list([f"(K.{c[0]}, {_lean_list([str(r) for r in c[1]])})" for c in calls])
             ws = _lean_list([f"({w[0]}, {_lean_list([str(r) for r in w[1]])})" for w in writes])
@@ -239,6 +252,8 @@ def gen_script(rng, k, maxlen=2, terminal=None):
 
 def gen_scenario(rng, op=None, nthreads=None):
     op = op or rng.choice(C.OPS)
+    if op in C.NO_TIMER:
+        return {"op": op, "scripts": [gen_script(rng, 0, 3)], "params": {"count": 2, "skip": rng.choice([None, 1, 3])}}
     if op in C.WINDOW:
         params = {"shift": 0.5} if (op == "window_time" and rng.random() < 0.3) else None
         sc = {"op": op, "scripts": [gen_script(rng, 0, 2), [["T"]] * rng.choice([1, 1, 2])]}
@@ -279,6 +294,8 @@ FIXED = [
     {"op": "flat_map", "scripts": [[["I", 0], ["E", "y"]], [["N", 1], ["C"]]]},
     {"op": "window_time", "scripts": [[["N", 1], ["E", "x"]], [["T"]]]},
     {"op": "window_toc", "scripts": [[["N", 1], ["N", 2], ["C"]], [["T"]]]},
+    {"op": "window_count", "scripts": [[["N", 1], ["N", 2], ["N", 3], ["C"]]], "params": {"count": 2, "skip": 1}},
+    {"op": "buffer_time", "scripts": [[["N", 1], ["E", "x"]], [["T"]]]},
 ]
 FIXED3 = [
     {"op": "zip", "scripts": [[["N", 1]], [["N", 10], ["E", "x"]], [["N", 100], ["C"]]]},
@@ -336,10 +353,29 @@ def _run(case):
 
 # combinators whose handlers are single locked blocks and that subscribe their sources once, at subscription
 # time: for these the concurrent output must equal the sequential output in lock-acquisition order
-SERIAL_OPS = ("zip", "combine_latest", "with_latest_from", "window_time", "window_toc")
+SERIAL_OPS = ("zip", "combine_latest", "with_latest_from", "window_time", "window_toc", "window_count")
+
+
+def _to_items(outer, inners):
+    o = [["I", e[1]] if e[0] == "I" else (["E", "eo"] if e[0] == "E" else ["C"]) for e in outer]
+    ins = [[["N", 1] if k == "N" else (["E", "ei"] if k == "E" else ["C"]) for k in seq] for seq in inners]
+    return o, ins
+
+
+def _until_terminal(seq):
+    out = []
+    for k in seq:
+        out.append(k)
+        if k in ("E", "C"):
+            break
+    return out
 
 
 def impl(case):
+    if case.get("type") == "merge_seq":
+        o, ins = _to_items(case["outer"], case["inners"])
+        calls, delivered = C.run_seq_calls(case["op"], case["order"], o, ins)
+        return {"calls": calls, "delivered": delivered}
     r = _run(case)
     log = r["log"]
     n = len(case["scripts"])
@@ -380,12 +416,17 @@ def _contended(log, role):
 
 
 def model_request(case):
+    if case.get("type") == "merge_seq":
+        return {"op": "merge_seq", "outer": case["outer"], "inners": case["inners"], "order": case["order"]}
     r = _run(case)
     progs, sched, labels, role = project(r["log"], len(case["scripts"]))
     return {"op": "lock_replay", "progs": progs, "sched": sched}
 
 
 def canon_impl(case, out):
+    if case.get("type") == "merge_seq":
+        # after the first terminal the real subscriptions are disposed; the model keeps the laggards (adversarial)
+        return {"calls": _until_terminal(out["calls"]), "delivered": out["delivered"]}
     if out.get("outcome") != "ok":
         return {"outcome": out.get("outcome")}
     return {"labels": out["labels"], "delivered": out["delivered"], "max_active": out["max_active"], "acq": out["acq"],
@@ -395,12 +436,18 @@ def canon_impl(case, out):
 def canon_model(case, resp):
     if "error" in resp:
         return resp
+    if case.get("type") == "merge_seq":
+        return {"calls": _until_terminal(resp["calls"]), "delivered": resp["delivered"]}
     return {"labels": resp["labels"], "delivered": resp["delivered"], "max_active": resp["max_active"],
             "acq": resp["acq"], "seq_equal": True}
 
 
 def oracle(case, out):
     """The property: the downstream observer is never entered by two threads at once, and it sees next* terminal?."""
+    if case.get("type") == "merge_seq":
+        d = out["delivered"]
+        bad = [i for i, k in enumerate(d) if k in ("E", "C") and i != len(d) - 1]
+        return f"grammar violated at the subscriber: {d}" if bad else None
     if out["outcome"] == "hang":
         raise RuntimeError("controller watchdog fired (harness hang)")
     if out["outcome"] != "ok":
@@ -415,10 +462,16 @@ def oracle(case, out):
 
 
 def nontrivial(case, out):
+    if case.get("type") == "merge_seq":
+        return len(out["calls"]) > 0
     return out["outcome"] == "ok" and (out["preempted"] > 0 and out["contended"])
 
 
 def bucket(case, out):
+    if case.get("type") == "merge_seq":
+        yield f"merge_seq:{case['op']}"
+        yield "merge_seq:ends:" + (out["delivered"][-1] if out["delivered"] and out["delivered"][-1] in ("E", "C") else "open")
+        return
     yield f"op:{case['op']}"
     yield f"threads:{len(case['scripts'])}"
     yield f"preemptions:{len(case.get('pre', []))}"
@@ -435,6 +488,8 @@ def bucket(case, out):
 
 
 def shrink(case):
+    if case.get("type") == "merge_seq":
+        return
     pre = case.get("pre", [])
     for i in range(len(pre)):
         yield dict(case, pre=pre[:i] + pre[i + 1:])
@@ -455,6 +510,24 @@ def cases(rng, tier):
         sc["first"] = rng.randrange(nt)
         sc["pre"] = [[s, rng.randrange(nt)] for s in steps]
         yield sc
+    # the merge_all model itself (atomic group.add outside the lock), handler by handler, vs the real operator
+    for i in range(fw.tier_scale(tier, 150, 1500)):
+        ninner = rng.choice([1, 2, 3])
+        outer = [["I", k] for k in range(ninner)]
+        rng.shuffle(outer)
+        t = rng.choice(["C", "C", "E", None])
+        if t:
+            outer.insert(rng.randrange(len(outer) + 1) if rng.random() < 0.3 else len(outer), [t])
+        inners = []
+        for k in range(ninner):
+            seq = ["N"] * rng.randrange(0, 3)
+            tt = rng.choice(["C", "C", "E", None])
+            if tt:
+                seq.append(tt)
+            inners.append(seq)
+        order = [0] * len(outer) + [k + 1 for k in range(ninner) for _ in inners[k]]
+        rng.shuffle(order)
+        yield {"type": "merge_seq", "op": rng.choice(["merge_all", "flat_map"]), "outer": outer, "inners": inners, "order": order}
 
 
 # =============================================================================== search
